@@ -4,6 +4,7 @@ import (
 	"fmt"
 	"go/token"
 	"go/types"
+	"net/http"
 	"sort"
 	"strings"
 
@@ -345,6 +346,16 @@ func (an *Analysis) binAtom(x *ssa.BinOp, depth int) (*Atom, bool) {
 		}
 		// atom is "X == nil"; NEQ negates
 		return &Atom{Key: key, Val: an.canon(l)}, op == token.NEQ
+	}
+	// header presence: Header.Get(const) ==/!= ""
+	if call, ok := l.(*ssa.Call); ok && callIsMethod(&call.Call, "net/http", "Header", "Get") && (op == token.EQL || op == token.NEQ) {
+		if s, ok := constStr(rc); ok && s == "" {
+			recv, args := recvAndArgs(&call.Call)
+			if k, ok := constStr(args[0]); ok {
+				// atom: "header field k is present (non-empty)"; `== ""` negates
+				return &Atom{Key: "hdr." + an.HeaderClass(recv) + "." + http.CanonicalHeaderKey(k) + ".present", Val: recv, S: k}, op == token.EQL
+			}
+		}
 	}
 	// status / method comparisons
 	if u, ok := l.(*ssa.UnOp); ok && u.Op == token.MUL {
